@@ -19,8 +19,10 @@ import (
 	"regexp"
 	"regexp/syntax"
 	"runtime"
+	"runtime/pprof"
 	"sort"
 	"strings"
+	"sync"
 
 	gregexp "github.com/grafana/regexp"
 	"github.com/sourcegraph/zoekt"
@@ -397,9 +399,7 @@ func docOrder(w *world, path string, scratch string) ([]cdoc, []string) {
 	return out, repos
 }
 
-var docOrderCache = map[string][]cdoc{}
-
-func (w *world) shardView(path string, scratch string) *shardView {
+func (w *world) shardView(path string, scratch string, docOrderCache map[string][]cdoc) *shardView {
 	repos, _, err := index.ReadMetadataPath(path)
 	must(err)
 	sv := &shardView{path: path, repos: repos}
@@ -462,13 +462,29 @@ func natList(xs []int) string {
 
 // ---------------------------------------------------------------- the run
 
+// sink buffers the cases of one world (worlds run in parallel, cases are written in world order)
+type sink struct {
+	cases  []gen.Case
+	counts map[string]int
+}
+
+func (s *sink) Emit(c gen.Case) { s.cases = append(s.cases, c) }
+func (s *sink) Count(k string, n int) {
+	if s.counts == nil {
+		s.counts = map[string]int{}
+	}
+	s.counts[k] += n
+}
+
 type runner struct {
-	w     *gen.Writer
-	r     *gen.Rand
-	root  string
-	child *f1util.Session
-	names interner
-	files interner
+	w        *sink
+	r        *gen.Rand
+	root     string
+	child    *f1util.Session
+	names    interner
+	files    interner
+	docOrder map[string][]cdoc
+	worker   int
 }
 
 func (rn *runner) docsField(sv *shardView) string {
@@ -685,9 +701,9 @@ var witnessOps = []struct {
 }{{0, true}, {1, true}, {0, true}, {0, false}, {2, true}, {1, true}, {1, false}}
 
 func (rn *runner) runWorld(n int, nOps int, nQueries int) {
-	r := rn.r.Fork()
+	r := rn.r
 	w := buildWorld(rn.root, r, n)
-	scratch := filepath.Join(rn.root, "scratch")
+	scratch := filepath.Join(rn.root, fmt.Sprintf("scratch%d", rn.worker))
 	var shards []string
 	es, _ := os.ReadDir(w.dir)
 	for _, e := range es {
@@ -700,7 +716,7 @@ func (rn *runner) runWorld(n int, nOps int, nQueries int) {
 		var svs []*shardView
 		var ss []zoekt.Searcher
 		for _, sp := range shards {
-			svs = append(svs, w.shardView(sp, scratch))
+			svs = append(svs, w.shardView(sp, scratch, rn.docOrder))
 			ss = append(ss, loadSearcher(sp))
 		}
 		ds, err := search.NewDirectorySearcher(w.dir)
@@ -819,6 +835,11 @@ func main() {
 		}
 	}
 	f1util.QuietGC()
+	if pf := os.Getenv("VERIF_CPUPROFILE"); pf != "" {
+		fh, _ := os.Create(pf)
+		pprof.StartCPUProfile(fh)
+		defer pprof.StopCPUProfile()
+	}
 	log.SetOutput(io.Discard)
 	w := gen.NewWriter(f.Out)
 	defer w.Close()
@@ -834,13 +855,63 @@ func main() {
 	}
 	self, err := os.Executable()
 	must(err)
-	rn := &runner{w: w, r: gen.NewRand(f.Seed), root: root, names: interner{}, files: interner{}}
-	// every third sidecar rename of the child fails with EIO
-	rn.child, err = f1util.Start(f1util.Mode{RenameFail: "2+3"}, filepath.Join(root, "child.log"), nil, self, "child")
-	must(err)
-	defer rn.child.Close()
-	nWorlds := f.N(4, 25)
+	// worlds run on a few workers in parallel, each with its own child (under strace a call mostly waits for the tracer)
+	top := gen.NewRand(f.Seed)
+	nWorlds := f.N(4, 14)
+	rands := make([]*gen.Rand, nWorlds)
+	for i := range rands {
+		rands[i] = top.Fork()
+	}
+	sinks := make([]*sink, nWorlds)
+	jobs := make(chan int)
+	var wg sync.WaitGroup
+	var firstPanic any
+	var pmu sync.Mutex
+	for wk := 0; wk < 4; wk++ {
+		wg.Add(1)
+		go func(wk int) {
+			defer wg.Done()
+			// every third sidecar rename of the child fails with EIO
+			child, err := f1util.Start(f1util.Mode{RenameFail: "2+3"}, filepath.Join(root, fmt.Sprintf("child%d.log", wk)), nil, self, "child")
+			must(err)
+			defer child.Close()
+			for i := range jobs {
+				func() {
+					defer func() {
+						if p := recover(); p != nil {
+							pmu.Lock()
+							if firstPanic == nil {
+								firstPanic = fmt.Sprintf("world %d: %v", i, p)
+							}
+							pmu.Unlock()
+						}
+					}()
+					rn := &runner{w: &sink{}, r: rands[i], root: root, child: child, names: interner{}, files: interner{}, docOrder: map[string][]cdoc{}, worker: wk}
+					sinks[i] = rn.w
+					rn.runWorld(i, f.N(7, 12), f.N(2, 5))
+				}()
+			}
+		}(wk)
+	}
 	for i := 0; i < nWorlds; i++ {
-		rn.runWorld(i, f.N(7, 12), f.N(2, 5))
+		jobs <- i
+	}
+	close(jobs)
+	wg.Wait()
+	for _, sk := range sinks {
+		if sk == nil {
+			continue
+		}
+		for _, c := range sk.cases {
+			w.Emit(c)
+		}
+		for k, n := range sk.counts {
+			w.Count(k, n)
+		}
+	}
+	if firstPanic != nil {
+		w.Close()
+		fmt.Fprintln(os.Stderr, "harness failure:", firstPanic)
+		os.Exit(3)
 	}
 }
